@@ -88,6 +88,13 @@ loop:
 				break loop
 			}
 			outer = append(outer, d)
+		case BCleanupErrorfSkip:
+			eff, have = d, true
+			break loop
+		case BCleanupSkip:
+			if d.Ctx == "body" {
+				// the case ends as skipped once the cleanup runs; nothing later in the body exists
+			}
 		default:
 			eff, have = d, true
 			break loop
